@@ -298,7 +298,7 @@ fn build(tier: Tier) -> Vec<Scenario> {
     let mut out = vec![];
     let (len1, len2, tmax) = match tier {
         Tier::Quick => (6usize, 5usize, 4i64),
-        Tier::Thorough => (6, 5, 6),
+        Tier::Thorough => (7, 6, 6),
     };
     for size in 1..=4i64 {
         for slide in 1..=size {
@@ -330,7 +330,7 @@ fn build(tier: Tier) -> Vec<Scenario> {
     }
     let txlen = match tier {
         Tier::Quick => 5,
-        Tier::Thorough => 6,
+        Tier::Thorough => 7,
     };
     out.push(loop_scenario(
         format!("C13/transaction/len{txlen}"),
